@@ -600,9 +600,26 @@ pub open spec fn inner_chain(fs: Seq<BodyFilter>, ct: Option<Seq<char>>) -> Seq<
         match spec_item_new(fs.last(), ct) { Some(i) => p.push(i), None => p }
     }
 }
+// raw input bytes held back by the first stage of the chain when that stage is the HTML stage (no claim for other first stages)
+pub open spec fn chain_held(chain: Seq<FilterBodyActionItem>) -> Seq<u8> {
+    if chain.len() > 0 { match chain[0] { FilterBodyActionItem::Html(h) => h.last_buffer@, _ => Seq::empty() } } else { Seq::empty() }
+}
 impl FilterBodyAction {
     //@@ fn src/filter/filter_body.rs :: impl FilterBodyAction / fn is_empty -> r
     //@| ensures r == (self.chain@.len() == 0),
+
+    // ---- error path of the chain (C04: "when a filter ... fails internally, the body passes through byte-for-byte").
+    // The input bytes the first HTML stage still holds back from earlier chunks (they were not emitted yet) belong to the body.
+    // do_filter (iter_mut loop with `?`) is NOT under contract: any result is possible.
+    //@@ fn src/filter/filter_body.rs :: impl FilterBodyAction / fn do_filter -> r
+    //@| opt external_body
+    //@| opt stub
+    //@| ensures true,
+
+    //@@ fn src/filter/filter_body.rs :: impl FilterBodyAction / fn filter -> r
+    //@| ensures old(self).in_error ==> r@ == data@ && final(self).in_error,
+    //@|     // switching to pass-through must not drop what an earlier chunk left held back
+    //@|     !old(self).in_error && final(self).in_error ==> r@ == chain_held(old(self).chain@) + data@,
 
     // shape of the chain (C14): no inner stage -> empty; encoding absent -> inner stages; supported encoding -> Decode ++ inner ++ Encode of
     // that encoding; unsupported encoding -> EMPTY chain (filtering disabled, body passes through)
